@@ -16,7 +16,10 @@ open GoPipeline GoPipeline.Pipe
 def fullSource (s : String) : String :=
   match PluginSrc.fullSource s.toList with
   | some r => String.ofList r
-  | none => s
+  | none =>
+    match PluginSrc.fullSourceQ s.toList with
+    | some r => String.ofList r
+    | none => s
 
 /-- A Go map store on the sorted-entries view (later value wins). -/
 def umapInsert (k : String) (v : Val) : List (String × Val) → List (String × Val)
